@@ -79,7 +79,7 @@ def r2_order(ctx):
     for name in TRANSFERS:
         n += c12.check_order(ctx, prog, prog.find_func(name))
     if n < 3:
-        ctx.violated(None, None, "transfer ranking sinks", f"only {n} rebuilt rankings found in the transfer functions")
+        ctx.vanished("transfer ranking sinks" + ": " + f"only {n} rebuilt rankings found in the transfer functions")
 
 
 def r3_exact(ctx):
@@ -320,7 +320,7 @@ def r8_cursor_discipline(ctx):
         inits = [dv for st, dv in astx.defs_of(f.node, cur) if dv is not None]
         ctx.check(len(inits) >= 1 and all(astx.is_const(d, 0) for d in inits), f, n, f"{f.short}: cursor `{cur}` starts at 0", "", f"cursor `{cur}` is initialised with something other than 0")
     if len(sites) < 5:
-        ctx.violated(None, None, "cursor-filled lists", f"only {len(sites)} cursor stores found (STV steps, random_transfer, tiebroken_ranking expected)")
+        ctx.vanished("cursor-filled lists" + ": " + f"only {len(sites)} cursor stores found (STV steps, random_transfer, tiebroken_ranking expected)")
 
 
 RULES = [
